@@ -94,7 +94,7 @@ Theorem C08_schedules : forall progs sc,
 Proof. exact schedules_thm. Qed.
 Print Assumptions C08_schedules.
 
-Theorem C08_wire : forall i, wf i = true -> spec i (model i) = true.
+Theorem C08_wire : forall i, spec i (model i) = true.
 Proof. exact spec_model. Qed.
 Print Assumptions C08_wire.
 
